@@ -51,24 +51,25 @@ theorem seqIter_prefix (app : App) (a0 : Arch) : ∀ (n : Nat) (a : Arch), seqL 
 
 /-- registers no instruction in between writes keep their value along the unpipelined run -/
 theorem seq_frame_range (app : App) (a0 : Arch) (hp : ProgLd app a0) (r : Reg) (m : Nat) : ∀ (d : Nat) (am an : Arch),
-    seqL app m a0 = some am → seqL app (m + d) a0 = some an →
+    seqL app m a0 = some am → seqL app (m + d) a0 = some an → NoRetBefore app (m + d - 1) →
     (∀ l i, m ≤ l → l < m + d → app.instrs[l]? = some i → r ∉ i.writeRegisters) →
     GoMap.get1 an.ctx.Registers r = GoMap.get1 am.ctx.Registers r := by
   intro d
   induction d with
   | zero =>
-    intro am an h1 h2 _
+    intro am an h1 h2 _ _
     rw [Nat.add_zero, h1] at h2
     simp only [Option.some.injEq] at h2
     rw [h2]
   | succ d ih =>
-    intro am an h1 h2 hw
+    intro am an h1 h2 hnr hw
+    have hnr' : NoRetBefore app (m + d) := hnr
     obtain ⟨ad, hd⟩ := seqIter_prefix app a0 (m + (d + 1)) an h2 (m + d) (by omega)
-    have e1 := ih am ad h1 hd (fun l i h3 h4 => hw l i h3 (by omega))
-    obtain ⟨f1, f2, _⟩ := seq_facts app a0 hp (m + d) ad hd
+    have e1 := ih am ad h1 hd (hnr'.mono (by omega)) (fun l i h3 h4 => hw l i h3 (by omega))
+    obtain ⟨f1, f2, _⟩ := seq_facts app a0 hp (m + d) ad hd (hnr'.mono (by omega))
     have h2' : seqL app (m + d + 1) a0 = some an := h2
-    obtain ⟨i, _, _, hi, _, _, _⟩ := seq_succ app a0 hp (m + d) ad an hd f1 f2 h2'
-    rw [seq_frame app a0 hp (m + d) ad an i hd h2' hi r (hw (m + d) i (by omega) (by omega) hi), e1]
+    obtain ⟨i, _, _, hi, _, _, _⟩ := seq_succ app a0 hp (m + d) ad an hd f1 f2 hnr' h2'
+    rw [seq_frame app a0 hp (m + d) ad an i hd h2' hnr' hi r (hw (m + d) i (by omega) (by omega) hi), e1]
 
 /-! ### the execute units as a list of slots -/
 
@@ -324,7 +325,7 @@ theorem getElem?_set_cases {α : Type} (l : List α) (i k : Nat) (a b : α) (h :
 
 /-- **take**: an execute unit takes the oldest issued runner off the execute bus (the unpipelined run can take the step) -/
 theorem BackO.take {x : Runner} {X' : List Runner} (hb : BackO app a0 c ctx (x :: X') H W nt) (hp : ProgLd app a0) (i : Nat)
-    (hi : H[i]? = some none) (St1 : Arch) (hst1 : seqL app (nt + 1) a0 = some St1) :
+    (hi : H[i]? = some none) (St1 : Arch) (hst1 : seqL app (nt + 1) a0 = some St1) (hnr : NoRetBefore app nt) :
     BackO app a0 c ctx X' (H.set i (some x)) W (nt + 1) := by
   have hsm := hp.small
   have hx : ROk app c x nt := ⟨hb.xchain.1, by rw [hb.xseq x List.mem_cons_self, hb.xchain.1.1]⟩
@@ -364,7 +365,7 @@ theorem BackO.take {x : Runner} {X' : List Runner} (hb : BackO app a0 c ctx (x :
     have h1 := hb.regsA St hst r hr (fun y hy => hH y (hsub y hy)) hW
     have hrx : r ∉ x.instr.writeRegisters := hH x (List.mem_of_getElem? (by
       rw [List.getElem?_set_self']; rw [hi]; rfl))
-    rw [h1, seq_frame app a0 hp nt St St1 x.instr hst hst1 hx.1.2 r hrx]
+    rw [h1, seq_frame app a0 hp nt St St1 x.instr hst hst1 hnr hx.1.2 r hrx]
   · intro y j aj hy hok haj r hr hr0
     rcases hmem y hy with h | rfl
     · exact hb.opsB y j aj h hok haj r hr hr0
@@ -546,7 +547,8 @@ theorem BackO.retire (hb : BackO app a0 c ctx X H W nt) (i : Nat) (x : Runner) (
     omega
 
 /-- **write back**: a write unit takes the oldest result off the write bus -/
-theorem BackO.writeback {ec : ExecCtx} (hb : BackO app a0 c ctx X H (ec :: W) nt) (hp : ProgLd app a0) :
+theorem BackO.writeback {ec : ExecCtx} (hb : BackO app a0 c ctx X H (ec :: W) nt) (hp : ProgLd app a0)
+    (hnr : NoRetBefore app (nt - 1)) :
     BackO app a0 c (deletePendingRegisters (if ec.execution.RegisterChange then Model.Seq.writeRegister ctx ec.execution else ctx)
       ec.readRegisters ec.writeRegisters) X H W nt := by
   have hsm := hp.small
@@ -592,9 +594,9 @@ theorem BackO.writeback {ec : ExecCtx} (hb : BackO app a0 c ctx X H (ec :: W) nt
   · intro St hst r hr hH hW
     by_cases hrx : r ∈ x.instr.writeRegisters
     · -- the register this result writes: its value is that of the unpipelined run after step `j`, and nobody behind writes it
-      obtain ⟨f1, f2, _⟩ := seq_facts app a0 hp j aj haj
+      obtain ⟨f1, f2, _⟩ := seq_facts app a0 hp j aj haj (hnr.mono (by omega))
       obtain ⟨aj1, haj1⟩ := seqIter_prefix app a0 nt St hst (j + 1) (by omega)
-      obtain ⟨i', bytes', e', hi', hby', he', hs1⟩ := seq_succ app a0 hp j aj aj1 haj f1 f2 haj1
+      obtain ⟨i', bytes', e', hi', hby', he', hs1⟩ := seq_succ app a0 hp j aj aj1 haj f1 f2 (hnr.mono (by omega)) haj1
       have hi'' := hok.1.2
       rw [hi'] at hi''; simp only [Option.some.injEq] at hi''; subst hi''
       rw [hby] at hby'; simp only [Option.some.injEq] at hby'; subst hby'
@@ -609,7 +611,9 @@ theorem BackO.writeback {ec : ExecCtx} (hb : BackO app a0 c ctx X H (ec :: W) nt
         rw [hs1]; simp only [hrc, if_true, Model.Seq.writeRegister, Proofs.Mvp4.get1_set, hreg, beq_self_eq_true]
       have hrange := seq_frame_range app a0 hp r (j + 1) (nt - (j + 1)) aj1 St haj1 (by
         have : j + 1 + (nt - (j + 1)) = nt := by omega
-        rw [this]; exact hst) (fun l il h1 h2 hil hw =>
+        rw [this]; exact hst) (by
+        have : j + 1 + (nt - (j + 1)) - 1 = nt - 1 := by omega
+        rw [this]; exact hnr) (fun l il h1 h2 hil hw =>
           hb.ww j l x.instr il hflj (by omega) (by omega) hok.1.2 hil r hrx hr hw)
       rw [hrange, hv1, hregs]
       simp only [hrc, if_true, Proofs.Mvp4.get1_set, hreg, beq_self_eq_true]
